@@ -124,6 +124,43 @@ def systematic(rng, tier):
 		]
 		for kind, st in tmpl:
 			out.append({'k': 'hostile', 'kind': kind, 's': st.hex(), 'cuts': [[]]})
+	# every name in every registry the code consults, used as a content / transfer coding: charsets and codec aliases below, here the
+	# media-type codec registry (a coding that names a registered media-type codec must be refused, not run) and the coding tables
+	from httoop import codecs as _codecs
+	from httoop.header import messaging as _messaging
+	regnames = set(k for k in getattr(_codecs, 'CODECS', {}) if isinstance(k, str))
+	for attr in dir(_messaging):
+		tbl = getattr(getattr(_messaging, attr), 'CODECS', None)
+		if isinstance(tbl, dict):
+			regnames |= set(k for k in tbl if isinstance(k, str))
+	regnames |= {'application/json', 'application/x-www-form-urlencoded', 'multipart/form-data', 'text/plain', 'message/http', 'application/gzip', 'application/zlib', 'zstd', 'x-compress'}
+	bodies = [b'{}', b'x', b'', b'a=b', b'--x\r\n\r\n--x--\r\n', b'\x1f\x8b', b'\xff']
+	for name in sorted(regnames):
+		for variant in (name, name.upper(), name.title()):
+			nm = variant.encode('latin-1', 'replace')
+			for body in bodies:
+				for fld in (b'Content-Encoding', b'Transfer-Encoding'):
+					for kind, head in (('server', b'POST / HTTP/1.1\r\nHost: h\r\n'), ('client', b'HTTP/1.1 200 OK\r\n')):
+						st = head + fld + b': ' + nm + b'\r\nContent-Length: %d\r\n\r\n' % len(body) + body
+						out.append({'k': 'hostile', 'kind': kind, 's': st.hex(), 'cuts': [[]]})
+	# degenerate values (empty, blanks only, separators only, unbalanced quotes) in every field the parser or its hooks read
+	degenerate = [b'', b' ', b'\t', b',', b', ,', b',,', b';', b';;', b'=', b'"', b'""', b'",', b' , ;= ', b',chunked', b'chunked,', b'chunked;', b';q=1', b'*', b'/', b':', b'@', b'[]', b'[', b'\\']
+	read_fields = [b'Transfer-Encoding', b'Content-Length', b'Content-Encoding', b'Content-Type', b'Host', b'Connection', b'Upgrade', b'HTTP2-Settings', b'Trailer', b'Expect', b'TE', b'Accept', b'Cookie', b'Range']
+	for fld in read_fields:
+		for v in degenerate:
+			for kind, head, tail in (('server', b'POST / HTTP/1.1\r\n' + (b'' if fld == b'Host' else b'Host: h\r\n'), b'\r\nab'), ('client', b'HTTP/1.1 200 OK\r\n', b'\r\nab')):
+				st = head + fld + b':' + v + b'\r\n' + tail
+				out.append({'k': 'hostile', 'kind': kind, 's': st.hex(), 'cuts': [[]]})
+				if fld == b'Trailer':
+					st = head + b'Transfer-Encoding: chunked\r\nTrailer:' + v + b'\r\n\r\n1\r\na\r\n0\r\nX: y\r\n\r\n'
+					out.append({'k': 'hostile', 'kind': kind, 's': st.hex(), 'cuts': [[]]})
+	# the complete h2c upgrade request (all conditions of the upgrade check true) with hostile values in each of its fields
+	h2vals = [b'Zm9v', b'', b'\xff\xfe', b'=?utf-8?q?=C3=A4?=', b'=?utf-8?b?w6Q=?=', b'%', b'====', b'Zm9', b'Zm9v\x01', b'a b', b'"Zm9v"', b'Zm9v, Zm9v', b'\xe4']
+	for v in h2vals:
+		for st in (b'GET / HTTP/1.1\r\nHost: h\r\nConnection: Upgrade, HTTP2-Settings\r\nUpgrade: h2c\r\nHTTP2-Settings: ' + v + b'\r\n\r\n',
+				b'GET / HTTP/1.1\r\nHost: h\r\nConnection: Upgrade, HTTP2-Settings\r\nUpgrade: ' + v + b'\r\nHTTP2-Settings: Zm9v\r\n\r\n',
+				b'GET / HTTP/1.1\r\nHost: h\r\nConnection: Upgrade, ' + v + b'\r\nUpgrade: h2c\r\nHTTP2-Settings: Zm9v\r\n\r\n'):
+			out.append({'k': 'hostile', 'kind': 'server', 's': st.hex(), 'cuts': [[]]})
 	# every charset name the code may accept (KNOWN_ENCODINGS as the tree has it now), every codec name Python knows
 	# (text or not: uu, hex, rot13, zlib ... are codecs that bytes.decode() refuses with LookupError), as the charset
 	# of an encoded word in a field the parser reads and of an RFC 5987 extended parameter
